@@ -1544,17 +1544,16 @@ class Parameter(_ParameterBase):
         item in a list).
         """
         name = self.name
+        ref, relink = None, False
         if obj is not None and self.allow_refs and obj._param__private.initialized:
             syncing = name in obj._param__private.syncing
             ref, deps, val, is_async = obj.param._resolve_ref(self, val)
-            refs = obj._param__private.refs
-            if ref is not None:
-                self.owner.param._update_ref(name, ref)
-            elif name in refs and not syncing:
-                del refs[name]
-                if name in obj._param__private.async_refs:
-                    obj._param__private.async_refs.pop(name).cancel()
+            # The link is only (re)installed or dropped once the value
+            # has been accepted, so that a rejected assignment has no effect.
+            relink = ref is not None or (name in obj._param__private.refs and not syncing)
             if is_async or val is Undefined:
+                if relink:
+                    self._relink(obj, name, ref)
                 return
 
         # Deprecated Number set_hook called here to avoid duplicating setter
@@ -1597,6 +1596,8 @@ class Parameter(_ParameterBase):
                     )
                 _old = obj._param__private.values.get(name, self.default)
                 obj._param__private.values[name] = val
+        if relink:
+            self._relink(obj, name, ref)
         self._post_setter(obj, val)
 
         if obj is not None:
@@ -1626,6 +1627,16 @@ class Parameter(_ParameterBase):
             obj.param._call_watcher(watcher, event)
         if not obj.param._BATCH_WATCH:
             obj.param._batch_call_watchers()
+
+    def _relink(self, obj, name, ref):
+        """Link this parameter on obj to ref, or drop its current link if ref is None."""
+        if ref is not None:
+            self.owner.param._update_ref(name, ref)
+        else:
+            refs = obj._param__private.refs
+            del refs[name]
+            if name in obj._param__private.async_refs:
+                obj._param__private.async_refs.pop(name).cancel()
 
     def _validate_value(self, value, allow_None):
         """Validate the parameter value against constraints.
